@@ -305,3 +305,32 @@ func indexCoupled(op wasm.Opcode) bool {
 //@   requires c.pc < uint64(len(c.body)) && c.body[c.pc] == wasm.OpcodeTailCallReturnCallIndirect && c.ensureTermination && !c.unreachableState.on && len(c.result.Operations) < 1<<40
 //@   ensures[exit-code-check-before-the-tail-call] r0 == nil ==> len(c.result.Operations) == old(len(c.result.Operations))+2 && c.result.Operations[len(c.result.Operations)-2].Kind == operationKindBuiltinFunctionCheckExitCode && c.result.Operations[len(c.result.Operations)-1].Kind == operationKindTailCallReturnCallIndirect
 //@   nosafety keep-pre
+
+// ---- C04: a tail call reuses the caller's frame - and with it the caller instance's cached memory,
+// globals, tables and functions - only for a callee of the SAME instance; a table entry that belongs to
+// another instance is called normally.
+//@ prop C04
+//@ func (ce *callEngine) resetPc(frame *callFrame, f *function) (body []unionOperation, bodyLen uint64)
+//@   requires[frame-reused-only-within-one-instance] frame != nil && frame.f != nil && f != nil && f.parent != nil && f.moduleInstance == frame.f.moduleInstance
+//@   ensures frame.f == f && frame.pc == 0 && bodyLen == uint64(len(f.parent.body)) && len(body) == len(f.parent.body)
+//@   may-panic true
+//@   modifies frame.f, frame.base, frame.pc
+
+//@ func (ce *callEngine) dropForTailCall(frame *callFrame, f *function)
+//@   trusted
+//@   modifies ce.stack, elems(ce.stack)
+
+//@ case return_call_indirect (ce *callEngine) callNativeFunc(ctx context.Context, m *wasm.ModuleInstance, f *function)
+//@   requires oneOp(f, operationKindTailCallReturnCallIndirect)
+//@   requires evOK() && len(ce.stack) >= 1 && len(ce.frames) < callStackCeiling-1
+//@   requires len(f.parent.body[0].Us) == 2
+//@   requires f.parent.body[0].Us[1] == 1 && f.parent.body[0].Us[0] == 0xffffffff00000000
+//@   requires[every-table-entry-is-a-guest-function-object] forall g *function :: g != nil ==> g.parent != nil && g.parent.hostFn == nil
+//@   requires f.parent.body[0].U2 < uint64(len(f.moduleInstance.Tables)) && f.moduleInstance.Tables[f.parent.body[0].U2] != nil && f.parent.body[0].U1 < uint64(len(f.moduleInstance.TypeIDs))
+//@   ensures true
+//@   inline-calls functionForOffset
+//@   locals-survive-calls
+//@   callees-preserve f.parent.body[0].Us, f.parent.body[0].Us[1], f.parent.body[0].Us[0], f.parent.body, f.parent
+//@   loop 0 ()
+//@     unroll 2
+//@   nosafety keep-pre
